@@ -49,6 +49,7 @@ fn main() {
         Some("digest") => std::process::exit(gcsim::driver::digest_cmd(&args[2..])),
         Some("miri-batch") => std::process::exit(gcsim::driver::miri_batch_cmd(&args[2..])),
         Some("stream2replay") => std::process::exit(gcsim::driver::stream2replay_cmd(&args[2..])),
+        Some("scale-inner") => std::process::exit(gcsim::scale::scale_inner_cmd(&args[2..])),
         Some("selfreplay") => std::process::exit(gcsim::driver::selfreplay_cmd(&args[2..])),
         _ => {
             eprintln!("usage: sim check <ID> quick|thorough | replay <file> [-v] | one <ID> <seed> <index> | digest <ID> <seed> <from> <count> | smoke <ID> <n> [from]");
